@@ -39,6 +39,11 @@ class C11(C10):
         for anc in sch.closure(ent):
             for iv in sch.ents[anc].get("inverse", []):
                 holders = []
+                # the inverted attribute is visible in E: declared by E itself or by one of its supertypes
+                own = [c for c in sch.closure(iv["ent"]) if any(a_["name"] == iv["attr"] for a_ in sch.own_slots(c))]
+                if not own:
+                    continue
+                own = own[0]
                 for y in insts:
                     if len(y["parts"]) == 1:
                         ye = [e for e in sch.order if e.upper() == y["parts"][0]["ent"]]
@@ -47,13 +52,15 @@ class C11(C10):
                         slots = sch.internal_slots(ye[0])
                         vals = y["parts"][0]["vals"]
                     else:
-                        part = [p for p in y["parts"] if p["ent"] == iv["ent"].upper()]
+                        if not any(p["ent"] == iv["ent"].upper() for p in y["parts"]):
+                            continue
+                        part = [p for p in y["parts"] if p["ent"] == own.upper()]
                         if not part:
                             continue
-                        slots = [(iv["ent"], a, False) for a in sch.own_slots(iv["ent"])]
+                        slots = [(own, a, False) for a in sch.own_slots(own)]
                         vals = part[0]["vals"]
                     for (owner, a, d), v in zip(slots, vals):
-                        if owner == iv["ent"] and a["name"] == iv["attr"]:
+                        if owner == own and a["name"] == iv["attr"]:
                             if x["id"] in pm.refs_of(v, []):
                                 holders.append(y["id"])
                 if not iv.get("agg") and len(set(holders)) != 1:
